@@ -271,6 +271,12 @@ def _run_main(case, ctx):
     prog = _with_faults(case["prog"], case["faults"], case.get("switches", ()))
     prog["strategy"] = case["strategy"]
     prog["strategy_call"] = case.get("strategy_call", "plain")
+    if (sum(case["cuts"]) + case["nsteps"]) % 6 == 3:
+        prog["plain_replication"] = True      # the replication is a model-defined ReplicationInterface implementation (three times, no more)
+        ctx.count("cases_with_a_model-defined_replication_object")
+    if (sum(case["cuts"]) + case["nsteps"]) % 6 == 4:
+        prog["unhashable_model"] = True       # the handlers' target object (the model) defines __eq__ and has no hash
+        ctx.count("cases_with_an_unhashable_handler_target")
     if case.get("unprintable"):
         prog["payload"] = "unprintable"       # the failing (and every other) event carries an object whose repr()/str() raise
         ctx.count("cases_whose_events_carry_an_unprintable_object")
